@@ -47,16 +47,17 @@ theorem wf_popMax : ∀ (t t' : Tree) (p : Entry) (pk : Tree), t.popMax = some (
     obtain ⟨hl, hr, hk, hlt, hgt, hs⟩ := hw
     cases r with
     | leaf =>
-      simp only [Tree.popMax, Option.some.injEq, Prod.mk.injEq] at h
+      rw [popMax_leaf_right] at h
+      simp only [Option.some.injEq, Prod.mk.injEq] at h
       obtain ⟨rfl, rfl, rfl⟩ := h
       exact ⟨wf_paintRoot hl, hk, hs⟩
     | node rl re rk rr =>
-      simp only [Tree.popMax] at h
       cases hp : (Tree.node rl re rk rr).popMax with
-      | none => simp [hp] at h
+      | none => have := popMax_isSome rl re rk rr; simp [hp] at this
       | some v =>
         obtain ⟨r', p', pk'⟩ := v
-        simp only [hp, Option.some.injEq, Prod.mk.injEq] at h
+        rw [popMax_node_right _ _ _ _ _ _ _ _ _ _ hp] at h
+        simp only [Option.some.injEq, Prod.mk.injEq] at h
         obtain ⟨rfl, rfl, rfl⟩ := h
         have sp := ihr r' p' pk' hp hr
         have ps := popMax_spec _ _ _ _ hp
